@@ -128,6 +128,16 @@ Theorem c18_silence_count lim ret psize (st : gmap string msil) now s0 newid :
   (0 < max_silences lim -> Z.of_nat (size st) <= max_silences lim -> Z.of_nat (size st') <= max_silences lim).
 Proof. exact (set_count lim ret psize st now s0 newid). Qed.
 
+(* ... and therefore through ANY sequence of Set calls from the empty store; Set holds the write lock over the
+   count check and the insertion, so every execution with concurrent callers is such a sequence (the harness's
+   concurrent engine forces two or more creators through the check together to tie this atomicity to the code) *)
+Theorem c18_silence_count_all_sequences lim ret reqs :
+  0 < max_silences lim -> Z.of_nat (size (run_sets lim ret ∅ reqs)) <= max_silences lim.
+Proof.
+  intros Hm. apply (run_sets_count lim ret reqs ∅); [intros k m H; rewrite lookup_empty in H; discriminate|exact Hm|].
+  rewrite map_size_empty. lia.
+Qed.
+
 (* every entry after a Set is what was there, or the submitted silence whose size passed MaxSilenceSizeBytes
    (the call returned Ok with its id), or the expiry of the replaced silence (same id, matchers, content) *)
 Theorem c18_silence_size lim ret psize (st : gmap string msil) now s0 newid k m' :
